@@ -102,12 +102,13 @@ Lemma getdata_Inv_gen : forall st s pat,
   (forall s' p, subscribed st s' p = false -> st_mirror st s' p = []) ->
   (forall s' p, replay (st_hist st s' p) [] = st_mirror st s' p) ->
   (forall s' p, ops_fit (st_hist st s' p) [] = true) ->
+  (forall s' p, subscribed st s' p = false -> st_hist st s' p = []) ->
   (forall s', st_n st <= s' -> st_subs st s' = []) ->
   (forall s' p, subscribed st s' p = true ->
      st_mirror st s' p = index_at (st_tree st) p \/ (s' = s /\ pmatch pat p = true /\ st_mirror st s' p = [])) ->
   Inv (getdata st s pat).
 Proof.
-  intros st s pat W H6 Hp Hun Hh Hhf Hn Hsub.
+  intros st s pat W H6 Hp Hun Hh Hhf Hhu Hn Hsub.
   destruct (getdata_fields st s pat) as (A & B & C & D & E & F).
   set (L := filter (fun e : path * inode => pmatch pat (fst e)) (st_tree st)).
   assert (HL : forall e, In e L -> lookup (st_tree st) (fst e) = Some (snd e)).
@@ -149,6 +150,7 @@ Proof.
     + intros s' p. rewrite Hhi. destruct (subscribed st s' p); [|apply Hhf].
       rewrite ops_fit_app, Hhf. simpl.
       destruct (Nat.eq_dec s' s) as [->|Hne]; [rewrite pend_for_gd; apply gd_fits | rewrite pend_for_gd_other by exact Hne; reflexivity].
+    + intros s' p Hs. rewrite (subscribed_subs st _ s' p C) in Hs. rewrite Hhi, Hs. apply Hhu. exact Hs.
   - intro s'. apply (J_ext st); [exact D | exact B | apply H6].
   - rewrite F. exact Hp.
 Qed.
@@ -160,6 +162,7 @@ Proof.
   - intros s' p Hs. apply (mA_unsub st M s' p Hs).
   - apply (mA_hist st M).
   - apply (mA_hfit st M).
+  - apply (mA_hunsub st M).
   - apply (mA_n st M).
   - intros s' p Hs. left. pose proof (mA_sub st M s' p Hs) as H. rewrite Hp in H. exact H.
 Qed.
@@ -200,6 +203,9 @@ Proof.
     apply orb_false_iff in Hs. apply Hs.
   - apply (mA_hist st M).
   - apply (mA_hfit st M).
+  - intros s' p Hs. rewrite Hsub0 in Hs. simpl. apply (mA_hunsub st M s' p).
+    destruct (Nat.eqb s' s) eqn:E; [|exact Hs]. apply Nat.eqb_eq in E. subst s'.
+    apply orb_false_iff in Hs. apply Hs.
   - intros s' Hs'. simpl in *. destruct (Nat.eqb s' s) eqn:E; [apply Nat.eqb_eq in E; lia | apply (mA_n st M s' Hs')].
   - intros s' p Hs. rewrite Hsub0 in Hs. simpl.
     destruct (subscribed st s' p) eqn:Eo.
@@ -232,6 +238,10 @@ Proof.
     apply Nat.eqb_eq in E. subst s'. unfold l. rewrite (mA_n st M s Hs'). reflexivity.
   - intros s' p _. rewrite Hp. reflexivity.
   - intros s' p. destruct (negb (Nat.eqb s' s) || subscribed_in l p); [apply (mA_hfit st M) | reflexivity].
+  - intros s' p Hs. unfold subscribed in Hs. simpl in Hs.
+    destruct (Nat.eqb s' s) eqn:E.
+    + apply Nat.eqb_eq in E. subst s'. fold (subscribed_in l p) in Hs. simpl. rewrite Hs. reflexivity.
+    + simpl. apply (mA_hunsub st M s' p Hs).
 Qed.
 
 (* ------------------------------------------------------------------ CloneDataNodeSubtree (repaired) *)
@@ -346,6 +356,7 @@ Proof.
   - intros s' Hs'. destruct (Nat.eqb s' s); [reflexivity | apply (mA_n st M s' Hs')].
   - intros s' p _. rewrite Hp. reflexivity.
   - intros s' p. destruct (Nat.eqb s' s); [reflexivity | apply (mA_hfit st M)].
+  - intros s' p Hs. rewrite Hsub in Hs. destruct (Nat.eqb s' s); [reflexivity | apply (mA_hunsub st M s' p Hs)].
 Qed.
 
 (* ------------------------------------------------------------------ commands, steps, runs *)
@@ -359,14 +370,27 @@ Lemma fold_Mid : forall (A : Type) (f : state -> A -> state) l st,
   (forall st a, Mid st -> Mid (f st a)) -> Mid st -> Mid (fold_left f l st).
 Proof. intros A f l. induction l as [|a l IH]; intros st Hf HM; [exact HM|]. simpl. apply IH; [exact Hf | apply Hf; exact HM]. Qed.
 
+Lemma make_path_Mid : forall rel st cur, Mid st -> Mid (make_path st cur rel).
+Proof.
+  induction rel as [|c r IH]; intros st cur HM; [exact HM|]. simpl. apply IH. apply add_node_Mid. exact HM.
+Qed.
+
+Lemma set_data_gen_Mid : forall st s rel, Mid st -> Mid (set_data_gen st s rel).
+Proof.
+  intros st s rel HM. unfold set_data_gen. destruct (has_node (st_tree st) [NS s]); [|exact HM].
+  apply prim_insert_ordered_Mid. apply make_path_Mid. exact HM.
+Qed.
+
 Lemma handle_Mid : forall cfg st s c, cfg_ok cfg -> Inv st -> s < st_n st -> Mid (handle cfg st s c).
 Proof.
   intros cfg st s c [Hf1 Hf2] HI Hlt. pose proof (Inv_Mid st HI) as HM.
   destruct c; cbn [handle].
-  - apply set_data_node_Mid; exact HM.
+  - apply fold_Mid; [|exact HM]. intros st' [rel gen] HM'. simpl.
+    destruct gen; [destruct addidx; [apply set_data_gen_Mid|]; exact HM' | apply set_data_node_Mid; exact HM'].
   - apply fold_Mid; [|exact HM]. intros st' p HM'. apply fold_Mid; [|exact HM'].
     intros st'' b HM''. apply prim_insert_ordered_Mid; exact HM''.
-  - apply fold_Mid; [|exact HM]. intros st' q HM'. apply prim_reorder_Mid; assumption.
+  - apply fold_Mid; [|exact HM]. intros st' f HM'. apply fold_Mid; [|exact HM'].
+    intros st'' q HM''. apply prim_reorder_Mid; assumption.
   - apply fold_Mid; [|exact HM]. intros st' v HM'. apply prim_remove_node_Mid; exact HM'.
   - apply Inv_Mid. apply subscribe_Inv; assumption.
   - apply Inv_Mid. apply unsubscribe_by_Inv; assumption.
@@ -397,6 +421,7 @@ Proof.
     + intros s Hs. apply (mA_n st M). lia.
     + apply (mA_fit st M).
     + apply (mA_hfit st M).
+    + apply (mA_hunsub st M).
   - apply (I6_shrink st); [exact H6 | reflexivity|]. intros q x Hx. simpl in Hx. rewrite index_at_add_node in Hx. exact Hx.
 Qed.
 
@@ -450,6 +475,7 @@ Proof.
     + intros s _. reflexivity.
     + intros s p _. reflexivity.
     + intros s p. reflexivity.
+    + intros s p _. reflexivity.
   - intro s. right. intros p _. simpl. unfold index_at.
     destruct (lookup (init_tree n) p) as [m|] eqn:E; [rewrite (init_tree_lookup _ _ _ E)|]; reflexivity.
   - reflexivity.
@@ -553,4 +579,74 @@ Proof.
   intros n steps s c p Hlt t.
   destruct (handle_Mid cfg_fixed (run cfg_fixed n steps) s c cfg_fixed_ok (run_Inv cfg_fixed n steps cfg_fixed_ok) Hlt) as [M _].
   split; [apply twf_index_NoDup | intros k Hk; apply twf_index_child]; try apply (mA_twf _ M). exact Hk.
+Qed.
+
+(* ------------------------------------------------------------------ quiet removal (PR_NAME_REMOVE_QUIETLY) *)
+
+Lemma twf_delete_subtree : forall t v, twf t -> ~ In (last_name v) (index_at t (parent_of v)) -> twf (delete_subtree t v).
+Proof.
+  intros t v W Hgone. split; [apply keys_delete_NoDup; apply W|].
+  intros q m Hq. rewrite lookup_delete_subtree in Hq. destruct (is_prefix v q) eqn:Ep; [discriminate|].
+  destruct (proj2 W q m Hq) as [Hnd Hinc]. split; [exact Hnd|].
+  intros x Hx. apply kids_of_In. rewrite has_node_delete.
+  assert (Hc : has_node t (q ++ [x]) = true) by (apply kids_of_In; apply Hinc; exact Hx).
+  rewrite Hc. simpl. destruct (is_prefix v (q ++ [x])) eqn:Ep2; [|reflexivity]. exfalso.
+  pose proof (is_prefix_snoc _ _ _ Ep2 Ep) as Ev. subst v.
+  unfold parent_of, last_name in Hgone. rewrite removelast_snoc, last_snoc in Hgone.
+  apply Hgone. rewrite (index_at_lookup _ _ _ Hq). exact Hx.
+Qed.
+
+(* A quiet removal keeps every index well-formed (index_inv does not depend on notifications) and the flag
+   invariant; it changes no index except the parent's (which loses the entry) and those of the removed nodes; so
+   every replica other than those of the parent and of the removed subtree is still exact.  The replicas of the
+   parent's index are stale until their holders take a new snapshot -- that is what "quietly" means. *)
+Theorem quiet_frame : forall st v, Mid st ->
+  let st' := remove_child_quiet st v in
+  twf (st_tree st') /\ I6 st' /\
+  (forall p, p <> parent_of v -> is_prefix v p = false -> index_at (st_tree st') p = index_at (st_tree st) p) /\
+  (forall s p, subscribed st' s p = true -> p <> parent_of v -> is_prefix v p = false ->
+     replay (pend_for (st_pend st') s p) (st_mirror st' s p) = index_at (st_tree st') p) /\
+  (has_node (st_tree st) v = true ->
+     ~ In (last_name v) (index_at (st_tree st') (parent_of v)) /\
+     forall p, is_prefix v p = true -> has_node (st_tree st') p = false).
+Proof.
+  intros st v [M H6] st'. unfold st', remove_child_quiet.
+  destruct (has_node (st_tree st) v) eqn:Eh.
+  2:{ split; [apply (mA_twf st M)|]. split; [exact H6|]. split; [reflexivity|].
+      split; [intros s p Hs _ _; apply (mA_sub st M s p Hs) | discriminate]. }
+  set (t := st_tree st) in *.
+  set (t1 := match lookup t (parent_of v) with
+             | Some n => set_node t (parent_of v) (fst (remove_index_entry n (last_name v)))
+             | None => t end).
+  assert (W : twf t) by apply (mA_twf st M).
+  (* the tree after dropping the parent's entry *)
+  assert (H1 : twf t1 /\ ~ In (last_name v) (index_at t1 (parent_of v)) /\
+               (forall p, p <> parent_of v -> index_at t1 p = index_at t p) /\
+               (forall p x, In x (index_at t1 p) -> In x (index_at t p)) /\ map fst t1 = map fst t).
+  { unfold t1. destruct (lookup t (parent_of v)) as [n|] eqn:El.
+    - destruct (remove_index_entry n (last_name v)) as [n' ops] eqn:Er. simpl fst.
+      destruct (remove_index_entry_spec _ _ _ _ _ (proj2 W _ n El) Er) as (Wn & _ & Nk & Sub & _).
+      split; [apply twf_set_node; assumption|]. split.
+      + rewrite (index_at_set_node _ _ n) by exact El. rewrite path_eqb_refl. exact Nk.
+      + split; [|split; [|apply keys_set_node]].
+        * intros p Hp. rewrite (index_at_set_node _ _ n) by exact El.
+          replace (path_eqb (parent_of v) p) with false; [reflexivity|]. symmetry. apply path_eqb_neq. congruence.
+        * intros p x Hx. rewrite (index_at_set_node _ _ n) in Hx by exact El.
+          destruct (path_eqb (parent_of v) p) eqn:E; [|exact Hx]. apply path_eqb_eq in E. subst p.
+          rewrite (index_at_lookup _ _ _ El). apply Sub. exact Hx.
+    - split; [exact W|]. split; [unfold index_at; rewrite El; intros []|]. split; [reflexivity|]. split; [intros p x Hx; exact Hx | reflexivity]. }
+  destruct H1 as (W1 & Hgone & Hother & Hshrink & Hkeys).
+  assert (Hidx : forall p, is_prefix v p = false -> index_at (delete_subtree t1 v) p = index_at t1 p).
+  { intros p Hp. unfold index_at. rewrite lookup_delete_subtree, Hp. reflexivity. }
+  simpl st_tree. split; [apply twf_delete_subtree; assumption|]. split; [|split; [|split]].
+  - apply (I6_shrink st); [exact H6 | reflexivity|]. intros q x Hx. simpl in Hx.
+    unfold index_at in Hx at 1. rewrite lookup_delete_subtree in Hx. destruct (is_prefix v q); [inversion Hx|].
+    apply Hshrink. exact Hx.
+  - intros p Hp Hv. rewrite (Hidx p Hv). apply Hother. exact Hp.
+  - intros s p Hs Hp Hv. simpl. rewrite (Hidx p Hv), (Hother p Hp). apply (mA_sub st M s p Hs).
+  - intros _. split.
+    + destruct (is_prefix v (parent_of v)) eqn:E.
+      * unfold index_at. rewrite lookup_delete_subtree, E. intros [].
+      * rewrite (Hidx _ E). exact Hgone.
+    + intros p Hp. rewrite has_node_delete, Hp. apply andb_false_r.
 Qed.
